@@ -47,6 +47,10 @@ THEOREMS = [
     "saLoop_runs", "sortagg_runs", "hashagg_eq_sortagg", "hashagg_eq_sortagg_unsorted_unsound",
 ]
 
+# deviations of the chunk path that depend on where the chunk boundaries are (see
+# chunking_irrelevant_simpleagg_unsound)
+CHUNK_DEPENDENT = {"agg:first/chunk-path", "agg:last/chunk-path", "agg:scalar-sum-empty"}
+
 # witnesses of the `_unsound` theorems, replayed on the implementation by the corpus file
 CORPUS = os.path.join(vlib.VERIF, "corpus", "C11")
 
@@ -183,7 +187,13 @@ def decide(ck, reqs, meta, impl, model, stats, origin="gen"):
                 # counting NULL on both paths, does not make them differ), plus tie-order ones
                 tags = []
                 if predicted:
-                    tags = sorted((set(a["tags"]) ^ set(b["tags"])) | set(sens)) or sorted(set(a["tags"]) | set(b["tags"]))
+                    tags = sorted((set(a["tags"]) ^ set(b["tags"])) | set(sens))
+                    if not tags:
+                        # both deviate from the spec by the same named mechanisms and still differ
+                        # (same operator over two chunkings): only the chunk-dependent ones can
+                        # make a difference
+                        both = set(a["tags"]) | set(b["tags"])
+                        tags = sorted(both & CHUNK_DEPENDENT) or sorted(both)
                 what = "%s: %s and %s return different answers (%s)" % (fam, a["label"], b["label"], m["detail"])
                 rep = {"request": q, "meta": m, "a": a, "b": b}
                 if not tags:
